@@ -306,6 +306,7 @@ Ltac mdestr :=
           | |- context [match ?x with pair _ _ => _ end] =>
               lazymatch x with (_, _) => fail | context [match _ with _ => _ end] => fail | _ => destruct x as [? [?|?]] end
           end; cbv beta iota zeta);
+  repeat match goal with u : unit |- _ => destruct u end;
   try reflexivity.
 
 (* rewrite with an equation about a forM term that is only convertible to the one in the goal *)
